@@ -43,4 +43,5 @@ with cf.ThreadPoolExecutor(max_workers=3) as ex:
         other=[p for p,(rc,_,_) in res.items() if rc not in (0,1)]
         line="%s\tproperty=%s\tcaught_by=%s\tnot_fired=%s\tother=%s\t%s" % (name, prop, ",".join(caught), ",".join(missed), ",".join(other), res.get(prop,("","",""))[2])
         print(line, flush=True); rows.append(line)
-open("/verif/seeded/RESULTS.tsv","w").write("\n".join(rows)+"\n")
+if len(sys.argv) < 2:
+    open("/verif/seeded/RESULTS.tsv","w").write("\n".join(rows)+"\n")
